@@ -56,7 +56,7 @@ def classify(text, r):
         le = b.find(b"\n", d["start"])
         line = b[ls:le if le >= 0 else len(b)].decode("utf-8", "replace")
         at = b[d["start"]:d["start"] + 12].decode("utf-8", "replace")
-        if re.search(r"(\(|,|^|\s)- \d", line) and (at.startswith(" ") or at[:1].isdigit() or at.startswith("-")):
+        if re.search(r"(\(|,|^|\s|NOT|-)- \d", line) and (at.startswith(" ") or at[:1].isdigit() or at.startswith("-")):
             return "render-negative-literal-blank"
         if re.search(r"ARRAY .* OF \w+ *:= *[^\[]", line):
             return "render-array-initial-values"
@@ -98,6 +98,16 @@ def search(run, info):
             lit = q + b + q
             texts.append(("string-escapes", "FUNCTION_BLOCK fs\nVAR\ns : %s := %s;\nt : %s;\nEND_VAR\nt := %s;\nt := CONCAT(s, %s);\nEND_FUNCTION_BLOCK\n" % (
                 ty, lit, ty, lit, lit), set()))
+    # bodies that hold only empty statements, and the bodies of the statement-model generator (empty statements, signed constants)
+    for body in ["FOR i := 1 TO 2 DO ; END_FOR;", "FOR i := 1 TO 2 BY 1 DO ;; END_FOR;", "WHILE i < 2 DO ; END_WHILE;", "REPEAT ; UNTIL i < 2 END_REPEAT;",
+                 "IF i < 2 THEN i := 1; ELSIF i < 3 THEN ; ELSE ; END_IF;", "IF i < 2 THEN ; ELSIF i < 3 THEN ; ELSIF i < 4 THEN i := 2; END_IF;",
+                 "IF i < 2 THEN END_IF;", "WHILE i < 2 DO REPEAT ; UNTIL TRUE END_REPEAT; END_WHILE;", ";", ";;"]:
+        texts.append(("empty-bodies", "FUNCTION_BLOCK fe\nVAR i : INT; END_VAR\n%s\nEND_FUNCTION_BLOCK\n" % body, set()))
+    import gen_st
+    for _ in range(150 if run.tier == "quick" else 3000):
+        sx, lx = gen_st.G_(rng, depth=rng.choice([1, 2, 3])).body()
+        # a negative constant under a unary operator (- -5) is the recorded negative-literal rendering
+        texts.append(("statement-model", gen_prog.render(lx), {"render-negative-literal-blank"} if "i:-" in sx else set()))
     # the witnesses of the recorded renderer gaps for constructs the AST-level generator does not produce
     witness_keys = {}
     for f in run.known:
@@ -178,7 +188,7 @@ def search(run, info):
                               {"input": {"text": t}}, no_input=True)
     return {"coverage": {
         "rule": "parse -> render -> parse -> render on units of the AST-level generator, the exhaustive operator-pair and statement-nesting "
-                "families, the character-string escape family, every repository fixture and the witnesses of the recorded renderer gaps; sources the parser rejects are skipped; a failed "
+                "families, the character-string escape family, bodies of empty statements, bodies of the statement-model generator, every repository fixture and the witnesses of the recorded renderer gaps; sources the parser rejects are skipped; a failed "
                 "round trip is attributed to a known finding only when the way it fails matches that finding's pattern and (for AST-level "
                 "units) the unit contains the construct; non-trivial = every accepted source, distinct by text",
         "outcomes": stats,
